@@ -12,6 +12,7 @@ import (
 	"reflect"
 	"regexp"
 	"runtime"
+	"runtime/debug"
 	"sort"
 	"strings"
 
@@ -26,6 +27,7 @@ type loadResult struct {
 	accepted bool
 	stage    string // decode | manager | panic
 	err      string
+	frame    string // panic: first repository frame
 	cfg      *service.Config
 	mgr      *service.Manager
 }
@@ -43,9 +45,18 @@ func decodeConfig(text string) (*service.Config, error) {
 // load runs the real load path on resolved JSON text.  The caller must call
 // res.close().
 func load(text string, logger *zap.Logger) (res loadResult) {
+	// a fault in the code under test (e.g. reading unmapped memory) must be an
+	// observation, not the end of the enumeration: turn it into a panic here; a
+	// subprocess without this setting confirms the real crash afterwards.
+	old := debug.SetPanicOnFault(true)
+	defer debug.SetPanicOnFault(old)
 	defer func() {
 		if r := recover(); r != nil {
-			res = loadResult{stage: "panic", err: fmt.Sprint(r)}
+			frame := ""
+			if m := reFrame.FindStringSubmatch(string(debug.Stack())); m != nil {
+				frame = strings.TrimPrefix(m[1], "github.com/database64128/shadowsocks-go/")
+			}
+			res = loadResult{stage: "panic", err: fmt.Sprint(r), frame: frame}
 		}
 	}()
 	cfg, err := decodeConfig(text)
@@ -54,7 +65,14 @@ func load(text string, logger *zap.Logger) (res loadResult) {
 	}
 	m, err := cfg.Manager(logger)
 	if err != nil {
-		return loadResult{stage: "manager", err: err.Error()}
+		msg := err.Error()
+		if strings.Contains(msg, "(PANIC=") {
+			// package fmt swallowed a panic (here: a fault turned into a panic by
+			// SetPanicOnFault) while formatting the error: without that setting the
+			// process dies.  Report it as what it is.
+			return loadResult{stage: "panic", err: msg, frame: "(inside error formatting)"}
+		}
+		return loadResult{stage: "manager", err: msg}
 	}
 	return loadResult{accepted: true, cfg: cfg, mgr: m}
 }
@@ -71,6 +89,7 @@ func (r *loadResult) close() {
 
 var (
 	reDigits = regexp.MustCompile(`[0-9]+`)
+	reHex    = regexp.MustCompile(`0x[0-9a-fA-F]+`)
 	reQuoted = regexp.MustCompile(`"[^"]*"`)
 )
 
@@ -80,6 +99,7 @@ func errorShape(msg, tmp string) string {
 	if tmp != "" {
 		msg = strings.ReplaceAll(msg, tmp, "@TMP@")
 	}
+	msg = reHex.ReplaceAllString(msg, "ADDR")
 	msg = reQuoted.ReplaceAllString(msg, `"…"`)
 	msg = reDigits.ReplaceAllString(msg, "N")
 	if len(msg) > 160 {
